@@ -23,6 +23,9 @@ HARNESSES = [
     ('k_signed_i32', 'messages/parsers.rs', ['C10', 'C01'], 'complete', 'all widths 1..=31 x bit offsets 0..7 x all contents (5 bytes suffice)', 'quick', 600),
     ('k_signed_i32_short', 'messages/parsers.rs', ['C10', 'C01', 'C14'], 'complete', 'all widths x offsets x contents on a 2-byte buffer: Err iff the bits are not there', 'quick', 600),
     ('k_message_type', 'messages/parsers.rs', ['C09', 'C19', 'C01'], 'complete', 'buffers of 0..=2 bytes, all contents (only the first byte is read)', 'quick', 300),
+    ('k_radio_sotdma', 'messages/radio_status.rs', ['C16', 'C01'], 'complete', 'all 2^19 SOTDMA states at every bit offset 0..7', 'quick', 600),
+    ('k_radio_itdma', 'messages/radio_status.rs', ['C16', 'C01'], 'complete', 'all 2^19 ITDMA states at every bit offset 0..7', 'quick', 600),
+    ('k_radio_dispatch', 'messages/radio_status.rs', ['C16', 'C01'], 'complete', 'all 256 message type values x all contents', 'quick', 600),
     ('k_u8_to_bool', 'messages/parsers.rs', ['C04'], 'complete', 'both values of a 1-bit field', 'quick', 300),
     ('k_rot_parse', 'messages/navigation.rs', ['C11', 'C01'], 'complete', 'all 256 codes', 'quick', 300),
     ('k_dte_from', 'messages/types.rs', ['C12', 'C01'], 'complete', 'both values of a 1-bit field', 'quick', 300),
@@ -67,6 +70,18 @@ for _n, _unw in [(0, 'quick'), (1, 'thorough'), (2, 'thorough'), (3, 'quick'), (
     HARNESSES.append(('k_unarmor_%d' % _n, 'messages/mod.rs', ['C03', 'C01'], 'bounded',
                       'cross-check of the Verus proof: unarmor, %d characters, all contents, fill 0..=5, every output bit against the reference packing' % _n, _unw, 900))
 
+
+# complete harnesses that discharge the whole contract of a function on their own: if Verus cannot decide that function
+# (lost anchor, construct outside its subset) the Kani result stands in for it
+COVERS = {
+    'k_message_type': ['messages/parsers.rs::message_type', 'messages/parsers.rs::message_type_bits'],
+    'k_radio_sotdma': ['messages/radio_status.rs::impl SotdmaMessage::parse', 'messages/radio_status.rs::impl SubMessage::parse', 'messages/radio_status.rs::impl SubMessage::utc_hour_and_minute',
+                       'messages/radio_status.rs::impl SubMessage::slot_offset', 'messages/radio_status.rs::impl SubMessage::subm_u16'],
+    'k_radio_itdma': ['messages/radio_status.rs::impl ItdmaMessage::parse'],
+    'k_radio_dispatch': ['messages/radio_status.rs::parse_radio'],
+    'k_rot_parse': ['messages/navigation.rs::impl RateOfTurn::parse'],
+    'k_signed_i32': ['messages/parsers.rs::signed_i32'],
+}
 
 # properties whose checks re-validate the assumed nom contracts (the others rely on the same shim and say so)
 SHIM_PROPS = ('C01', 'C04')
@@ -250,6 +265,7 @@ def _run_sel(sel, work, log, extra_args=()):
             out['failures'].append(dict(ob=ob[0], engine='kani', output=r['output'], tags=props))
         else:
             out['undecided'].append('%s: %s\n%s' % (ob[0], r['status'], r.get('output', '')[-600:]))
+    out['covered_fns'] = [q for (name, *_r) in sel if res.get(name, {}).get('status') == 'success' for q in COVERS.get(name, [])]
     out['backend'] = dict(harnesses=len(sel), solver_s=round(total, 2), from_cache=any(r.get('cached') for r in res.values()),
                           results={n: res[n]['status'] for n in res})
     return out
